@@ -404,7 +404,8 @@ func (l *List) Merge(sta funcGen.Stack[Value]) (*List, error) {
 	}
 	if otherList, ok := other.ToList(); ok {
 		return NewListFromIterable(func(st funcGen.Stack[Value]) iterator.Producer[Value] {
-			return iterator.Merge(l.iterable(st), otherList.iterable(st),
+			// the items of both lists are created in goroutines of their own, so both need their own stack
+			return iterator.Merge(l.iterable(funcGen.NewEmptyStack[Value]()), otherList.iterable(funcGen.NewEmptyStack[Value]()),
 				func(a, b Value) (bool, error) {
 					st.Push(a)
 					st.Push(b)
